@@ -341,7 +341,7 @@ def op_strategy():
 
 
 def plan(tier, seed):
-    specs = [dict(name="timelines-%d" % i, kind="timelines", n=700 if tier == "quick" else 8000) for i in range(16)]
+    specs = [dict(name="timelines-%d" % i, kind="timelines", n=1000 if tier == "quick" else 40000) for i in range(16)]
     specs.append(dict(name="directed", kind="directed"))
     return specs
 
